@@ -893,8 +893,38 @@ func c16windowAs(c *Ctx, rule string) {
 			got := anf(p, ltSt.Val, rwLeaf).String()
 			formA := "-1·(-1·lastTime + 1·now)%(1·interval) + 1·now"
 			formB := "1·interval*(-1·lastTime + 1·now)/(1·interval) + 1·lastTime"
-			if got != formA && got != formB {
-				return false, "lastTime becomes " + got + " — not the last interval boundary at or before now (now − (now−lastTime)%interval): when the idle gap exceeds the window span is capped at size, so advancing lastTime by span·interval leaves it lagging, every following Add resets all buckets again and Reduce sees an empty window"
+			formC := "1·interval*span + 1·lastTime"
+			// is span known to be below the cap (size) on this path?
+			capped := 0 // 1: span >= size established, -1: span < size established
+			for _, b := range p.All(px.KindIs(px.EvBranch)) {
+				cnd := b.Cond.Strip(true)
+				if cnd.Kind != px.KBinOp || cnd.X.Strip(false) != sp.Res || rwLeaf(cnd.Y) != "size" {
+					continue
+				}
+				switch cnd.Op {
+				case token.LSS:
+					capped = -triOf(b.Taken)
+				case token.GEQ, token.EQL:
+					capped = triOf(b.Taken)
+				case token.NEQ:
+					capped = -triOf(b.Taken)
+				}
+			}
+			switch {
+			case got == formC:
+				if capped != -1 {
+					return false, "lastTime advances by span·interval on a path where span may be capped at size: after an idle gap longer than the window lastTime lags, every following Add resets all buckets again and Reduce sees an empty window"
+				}
+			case got == formA || got == formB:
+				// a re-alignment to \"now\" reads the clock a second time (span() took its own reading): offset advanced by the
+				// span of the first reading, lastTime by the intervals of the second — when an interval boundary passes in
+				// between they differ, the skipped interval's bucket is never reset and its values stay in the window one
+				// interval too long. Only when every bucket was reset anyway (span capped at size) is the second reading harmless.
+				if capped != 1 {
+					return false, "lastTime is re-aligned with a second clock reading (now − (now−lastTime)%interval) although offset advanced by the span of the first reading, on a path where span is not known to be capped: if an interval boundary passes between the two readings lastTime moves one interval further than offset, that interval's bucket is never reset and stale values stay visible"
+				}
+			default:
+				return false, "lastTime becomes " + got + " — neither lastTime + span·interval (span below the cap) nor the last interval boundary at or before now (span capped)"
 			}
 			for _, r := range resets {
 				a := anf(p, r.Call.Args[1], func(s *px.Sym) string {
